@@ -141,6 +141,8 @@ def convergence_probe(ctx):
 
 
 def check(ctx):
+    from harness import formulas
+    formulas.check_formulas(ctx, ['CDFEstimator._linear', 'CDFEstimator._parabolic', 'QuantileEstimator.grid'])
     rng = ctx.rng
     lines, posts = [], []
     for k in range(ctx.scale(200, 2000)):
